@@ -3,6 +3,7 @@ import RedactVerif.Props.FactsClassify
 import RedactVerif.Proofs.U.Top
 import RedactVerif.Proofs.S.Top
 import RedactVerif.Props.FactsSkelPrinter
+import RedactVerif.Props.C04
 /-
 C06 — Unsafe(x) envelopes all of x; Safe(x) envelopes none; outermost wins.
 
@@ -270,5 +271,79 @@ example : EnvOk exEnv6 ∧ S.EnvOk exEnv6 ∧ ValOk exV6 ∧ S.ValOk (.unsafeW e
   · intro h hh; cases hh
   · simp [exV6, ValOk]
   · simp [exV6, S.ValOk]
+
+/-! ### "In both cases the characters are those fmt prints for x" (on the model)
+
+For `x` without redact-specific dispatch of its own (no SafeFormatter / SafeMessager / redactable
+inside, no error hook; anything else: wrappers nested at any depth, Stringers, errors, Formatters
+calling back into the printer, panicking methods, containers), the output of `Sprint(Unsafe(x))` and of
+`Sprint(Safe(x))`, with markers stripped, is the text of the unclassified run (section 17 of
+DESIGN.md) with its markers replaced by `?` — the same text for both wrappers and for `x` itself —
+and each call panics exactly when that run does. Together with the envelope theorems above
+(`sprint_unsafe_all_enveloped`, `sprint_safe_no_marker`) this is C06's statement on the model. -/
+
+theorem unsafe_chars_are_plain (env : Env) (he : ErU.EnvE env) (hs : S.EnvOk env) (x : Val)
+    (hx : ErU.ValE x) (ho : S.ValOk x) :
+    C04.SameText (sprint env [.unsafeW x]) (plainSprint env [.unsafeW x]) :=
+  C04.sprint_wrapped_strip_eq_plain env he hs [.unsafeW x]
+    (fun v hv => by simp only [List.mem_singleton] at hv; subst hv; exact hx)
+    (fun v hv => by simp only [List.mem_singleton] at hv; subst hv; exact ho)
+
+theorem safe_chars_are_plain (env : Env) (he : ErU.EnvE env) (hs : S.EnvOk env) (x : Val)
+    (hx : ErU.ValE x) (ho : S.ValOk x) :
+    C04.SameText (sprint env [.safeW x]) (plainSprint env [.safeW x]) :=
+  C04.sprint_wrapped_strip_eq_plain env he hs [.safeW x]
+    (fun v hv => by simp only [List.mem_singleton] at hv; subst hv; exact hx)
+    (fun v hv => by simp only [List.mem_singleton] at hv; subst hv; exact ho)
+
+/-- In the unclassified run the wrappers are inert: printing `Unsafe(x)` or `Safe(x)` is printing `x`
+(one unit of fuel apart: the wrapper's own call). -/
+theorem plain_wrappers_inert (env : Env) (hs : S.EnvOk env) (n : Nat) (p : PP) (hp : S.Pre p) (x : Val) (ho : S.ValOk x) (verb : Nat) :
+    printArg env (n + 1) p (.unsafeW x) verb = printArg env n p x verb ∧
+    printArg env (n + 1) p (.safeW x) verb = printArg env n p x verb := by
+  have key : ∀ (start : PP → PP × PP.Restorer), start p = (p, ⟨p.buf.mode, p.override⟩) →
+      bracket start p (fun q => printArg env n q x verb) = printArg env n p x verb := by
+    intro start hst
+    have hS := (S.spec_all env hs n).printArg p x verb hp ho
+    unfold bracket
+    rw [hst]
+    simp only
+    generalize printArg env n p x verb = r at hS ⊢
+    cases r with
+    | ok q =>
+      have g := hS.1 q rfl
+      have hm : q.buf.setMode p.buf.mode = q.buf := setMode_same _ _ (by rw [g.1.mode, hp.2.1])
+      simp only [PP.restore, hm, ← g.2]
+    | panic b pl =>
+      have g := hS.2 b pl rfl
+      have hm : b.setMode p.buf.mode = b := setMode_same _ _ (by rw [g.1.mode, hp.2.1])
+      simp only [hm]
+    | fuel => rfl
+    | unsupported => rfl
+  constructor
+  · simp only [printArg]
+    exact key _ (by have := (S.start_unsafeOverride hp); rw [Prod.ext_iff]; exact ⟨this.2.2, this.2.1⟩)
+  · simp only [printArg]
+    exact key _ (by have := (S.start_safeOverride hp); rw [Prod.ext_iff]; exact ⟨this.2.2, this.2.1⟩)
+
+/-! Premises satisfiable: a slice holding a `Safe(string)` and a Stringer that panics with an `Unsafe(string)`. -/
+def exStrL : Val := .leaf 0 .str ([0x73, 0x74, 0x72, 0x69, 0x6E, 0x67] /- "string" -/ : List UInt8) none false false
+def exX : Val :=
+  .slice ([0x5B, 0x5D, 0x61] /- "[]a" -/ : List UInt8) false true
+    (.cons (.safeW exStrL)
+      (.cons (.meth { stringer := true } ([0x6D, 0x2E, 0x53] /- "m.S" -/ : List UInt8) false false false 1 (.panic (.unsafeW exStrL)) exStrL) .nil))
+def exEnvU : Env := { render := fun _ _ => some [0x61, 0xE2, 0x80, 0xB9, 0x62], hook := none }
+
+example : ErU.EnvE exEnvU ∧ S.EnvOk exEnvU ∧ ErU.ValE exX ∧ S.ValOk exX := by
+  have ha : ∀ (l : List Byte), l.all (· < 0x80) = true → Asc l := fun l h => asc_of_all h
+  refine ⟨⟨?_, rfl⟩, ?_, ?_, ?_⟩
+  · intro id d s hs
+    simp only [exEnvU, Option.some.injEq] at hs
+    subst hs
+    exact Or.inr ⟨[0x61, 0xE2, 0x80, 0xB9], [0x62], rfl, by decide⟩
+  · intro h hh; cases hh
+  · simp only [exX, ErU.ValE, ErU.ValsE, ErU.ScriptE, exStrL]
+    refine ⟨ha _ (by decide), ha _ (by decide), ⟨⟨ha _ (by decide), ?_, ?_⟩, ha _ (by decide), ha _ (by decide)⟩, trivial⟩ <;> simp
+  · simp [exX, S.ValOk, S.ValsOk, S.ScriptOk, exStrL]
 
 end Redact
